@@ -130,6 +130,7 @@ static void do_plus(char *hex, int cut)
 static void do_term(char **w, int n)
 {
 	int i;
+	ibuf_pos = ibuf_cnt = icmd_pos = 0;	/* every request starts from the initial state */
 	for (i = 0; i < n; i++) {
 		if (w[i][0] == 'p') {
 			int k = atoi(w[i] + 1);
